@@ -282,7 +282,7 @@ func mustPassAllPaths(f *ssa.Function, from, through *ssa.BasicBlock) bool {
 
 func fingerprintFiltered(f *ssa.Function, keep func(string) bool) []string {
 	var out []string
-	for _, s := range fingerprint(f) {
+	for _, s := range fingerprintDepth(f, 0) {
 		if keep(s) {
 			out = append(out, s)
 		}
